@@ -541,7 +541,7 @@ def run(ctx):
             "trace_header": 0, "adc_shifts": 0, "rcxy": 0, "map_texts": 0, "map_texts_malformed": 0,
             "map_texts_valueerror": 0, "map_texts_ambiguous_skipped": 0, "npultra_geom_maps": 0,
             "file_texts": 0, "file_texts_raise": 0, "file_texts_nogeometry": 0, "file_texts_crlf": 0,
-            "file_texts_duplicate_map": 0, "unsupported_arguments": 0, "nc_argument": 0, "reader_without_meta": 0,
+            "file_texts_duplicate_map": 0, "file_texts_fallback_typed": 0, "nidq_metas": 0, "unsupported_arguments": 0, "nc_argument": 0, "reader_without_meta": 0,
             "dense_layout_direct": 0, "rcxy_scalar_or_typed": 0}
     nontrivial = set()
     samples = []
@@ -688,6 +688,7 @@ def run(ctx):
             # ---------------- trace_header / split_trace_header / adc_shifts / rc2xy / xy2rc ----------------
             evaluations += run_layouts(ctx, inputs, outputs, descr, dist, tdir)
             evaluations += run_arguments(ctx, inputs, outputs, descr, dist, tdir)
+            evaluations += run_nidq(ctx, inputs, outputs, descr, dist, tdir)
             evaluations += run_parser(ctx, inputs, outputs, descr, dist)
             evaluations += run_npultra_geom(ctx, inputs, outputs, descr, dist, tdir)
             evaluations += run_files(ctx, inputs, outputs, descr, dist, tdir)
@@ -996,6 +997,60 @@ def run_arguments(ctx, inputs, outputs, descr, dist, tdir):
     return nev
 
 
+def run_nidq(ctx, inputs, outputs, descr, dist, tdir):
+    """No-table fallback as a function of (probe version, stream type) (repo 569e533): nidq metas of the 3B era
+    (no probe version) and of the 3A era (typeEnabled key => version 3A) carry no geometry; Reader opens on them
+    and leaves raw_channel_order = arange(nc); imec metas without a table keep the default layout of their
+    version (the no_map cases of the main stream and the file-text stream)."""
+    import spikeglx
+    nev = 0
+    base = [l for l in (common.REPO / "src" / "tests" / "fixtures" / "sample3B_g0_t0.nidq.meta").read_text()
+            .splitlines() if l]
+    variants = {
+        "3B nidq (fixture)": base,
+        "3B nidq without the empty shank map": [l for l in base if "snsShankMap" not in l],
+        "3A nidq (typeEnabled)": base + ["typeEnabled=imec,nidq"],
+        "3A nidq without the empty shank map": [l for l in base if "snsShankMap" not in l] + ["typeEnabled=nidq"],
+        "3A nidq, 8 saved channels": [("nSavedChans=9" if l.startswith("nSavedChans=") else
+                                       "snsMnMaXaDw=0,0,8,1" if l.startswith("snsMnMaXaDw=") else l)
+                                      for l in base] + ["typeEnabled=imec,nidq"],
+    }
+    for name, lines in variants.items():
+        text = "\n".join(lines) + "\n"
+        d = {"fn": "geometry_from_meta(read_meta_data(file))", "gen": "NP1", "text": text, "variant": name}
+        with guard(ctx, d, "geometry of a nidq meta file"):
+            f = tdir / "x.nidq.meta"
+            f.write_bytes(text.encode("ascii"))
+            md = spikeglx.read_meta_data(f)
+            ncs = int(md["nSavedChans"])
+            for srt in (False, True):
+                r2 = spikeglx.geometry_from_meta(md, return_index=True, sort=srt)
+                r1 = spikeglx.geometry_from_meta(md, sort=srt)
+                none = r1 is None and isinstance(r2, tuple) and len(r2) == 2 and r2[0] is None and r2[1] is None
+                if not none:
+                    ctx.fail("a nidq meta file (%s) gets a probe geometry" % name, dict(d, sort=srt),
+                             {"clause": "fallback"})
+                    out = [1] + flat_geom(canon_geom(r2[0], "NP1")) + ints(r2[1])
+                else:
+                    out = [2]
+                inputs.append([5, 1 if srt else 0] + [ord(c) for c in text])
+                outputs.append(out)
+                descr.append(dict(d, sort=srt))
+                nev += 1
+                sr = spikeglx.Reader(f, open=False, sort=srt)
+                sr_s = spikeglx.Reader(str(f), meta_file=str(f), open=False, sort=srt)      # meta_file as str (c43b144)
+                for r_ in (sr, sr_s):
+                    if r_.geometry is not None or ints(r_.raw_channel_order) != list(range(ncs)) or int(r_.nc) != ncs:
+                        ctx.fail("Reader on a nidq meta file (%s): geometry %s, raw_channel_order %s" % (
+                            name, type(r_.geometry).__name__, ints(r_.raw_channel_order)[:6]), dict(d, sort=srt),
+                            {"clause": "fallback"})
+            if spikeglx.read_geometry(f) is not None:
+                ctx.fail("read_geometry of a nidq meta file (%s) is not None" % name, d, {"clause": "fallback"})
+            f.unlink()
+            dist["nidq_metas"] += 1
+    return nev
+
+
 def parse_impl(text, key):
     """_map_channels_from_meta on one map string -> flat encoding of Run.v mode 4."""
     import spikeglx
@@ -1173,6 +1228,14 @@ def run_files(ctx, inputs, outputs, descr, dist, tdir):
             split = rng.choice(sorted({s_[0] for s_ in sites}))
             lines.append("NP2.4_shank=%d" % split)
         lines += rng.sample(FILLER, rng.randrange(0, 6))
+        if mode in ("nomap", "empty") and rng.random() < 0.6:
+            # the fallback depends on the stream type: nidq (no snsApLfSy), or an imec stream
+            lines = [l for l in lines if not l.startswith(("typeThis=", "snsApLfSy="))]
+            lines += rng.choice([["typeThis=nidq", "snsMnMaXaDw=0,0,1,1"], ["typeThis=nidq"],
+                                 ["typeThis=nidq", "snsApLfSy=384,0,1"], ["typeThis=imec", "snsApLfSy=0,384,1"],
+                                 ["typeThis=imec", "snsApLfSy=384,0,1"], ["snsApLfSy=384"],
+                                 ["typeThis=nidq", "snsApLfSy=0,0,1"]])
+            dist["file_texts_fallback_typed"] += 1
         if mode != "dup":
             rng.shuffle(lines)
         else:                   # keep the relative order of the two map lines
